@@ -16,6 +16,8 @@ func chunkSize(kind string) int {
 		return 1
 	case kind == "graphsamp":
 		return 25
+	case kind == "hist:bigshape":
+		return 3
 	case strings.HasPrefix(kind, "small"):
 		return 20000
 	case strings.HasPrefix(kind, "tiny") || strings.HasPrefix(kind, "difftiny"):
@@ -29,6 +31,10 @@ func chunkSize(kind string) int {
 // genCase: case idx of (kind, seed, prop). Deterministic.
 func genCase(kind string, seed int64, prop string, idx int) *Case {
 	switch {
+	case kind == "hist:decoblock" || kind == "hist:bigshape":
+		// structured families with generators of their own (extras.go), monitored like any history
+		g, _ := extraGen(kind, seed, prop, idx)
+		return g
 	case strings.HasPrefix(kind, "hist:"):
 		p := profileByName(kind[len("hist:"):])
 		return &Case{Kind: kind, H: genHistory(caseRand(seed, kind, idx), p)}
